@@ -151,6 +151,10 @@ class LOC(dns.rdata.Rdata):
         _check_coordinate_list(longitude, -180, 180)
         self.longitude = tuple(longitude)  # pyright: ignore
         self.altitude = float(altitude)
+        # The wire format stores the altitude in centimeters above a base 100,000m
+        # below the reference spheroid as an unsigned 32-bit integer.
+        if not -10000000.0 <= self.altitude < 4284967296.0:
+            raise ValueError("altitude out of range")
         self.size = float(size)
         self.horizontal_precision = float(hprec)
         self.vertical_precision = float(vprec)
@@ -256,6 +260,9 @@ class LOC(dns.rdata.Rdata):
         if t[-1] == "m":
             t = t[0:-1]
         altitude = float(t) * 100.0  # m -> cm
+        if altitude == altitude and abs(altitude) != float("inf"):
+            # The text form has centimeter resolution; undo binary rounding error.
+            altitude = float(round(altitude))
 
         tokens = tok.get_remaining(max_tokens=3)
         if len(tokens) >= 1:
